@@ -49,7 +49,7 @@ void deliver(Ctx &ctx, GridState &st, const std::vector<double> &T, const Schedu
 } // namespace
 
 void check_C09(Src &s, Ctx &ctx) {
-    SpecOpts so; so.nonnested = false; so.custom = false; so.conformal = false; so.min_outs = 1; so.max_outs = 3; so.cap = cfg().tier ? 200 : 60;
+    SpecOpts so; so.nonnested = false; so.custom = false; so.conformal = false; so.min_outs = 1; so.max_outs = 3; so.cap = cfg().tier ? 90 : 60;
     GridState base; base.cap = so.cap;
     base.spec = decode_spec(s, so); base.vm.decode(s);
     if (base.spec.depth > 3) base.spec.depth = 3;
